@@ -26,7 +26,9 @@ class DispatcherBase:
                 f"reconnect() - retrying in {seconds} seconds [{len(inspect.stack())} frames in stack]"
             )
             time.sleep(seconds)
-            reconnector(reconnecting=True)
+            # close() may have been called while we were sleeping
+            if self.app.keep_running:
+                reconnector(reconnecting=True)
         except KeyboardInterrupt as e:
             _logging.info(f"User exited {e}")
             raise e
